@@ -81,6 +81,15 @@ const TEMPLATES: &[Template] = &[
     Template { name: "let t=(lit,lit,x);t", src: "pub fn main(x: T) -> (T, T, T) {\n  let t = ({1:T}, {2:T}, x);\n  t\n}\n", params: &["T"], ret: "(T,T,T)", signed_only: false, unsigned_only: false, other: None },
     Template { name: "let t=((lit,x),[lit;2]);t", src: "pub fn main(x: T) -> ((T, T), [T; 2]) {\n  let t = (({1:T}, x), [{2:T}; 2]);\n  t\n}\n", params: &["T"], ret: "(T,T,T,T)", signed_only: false, unsigned_only: false, other: None },
     Template { name: "let a=[(lit,x);2];a", src: "pub fn main(x: T) -> [(T, T); 2] {\n  let a = [({1:T}, x); 2];\n  a\n}\n", params: &["T"], ret: "(T,T,T,T)", signed_only: false, unsigned_only: false, other: None },
+    Template { name: "let t=((lit,lit),lit);let u:(T,T)=t.0", src: "pub fn main(x: T) -> T {\n  let t = (({1:T}, {2:T}), {3:T});\n  let u: (T, T) = t.0;\n  u.1 + x\n}\n", params: &["T"], ret: "T", signed_only: false, unsigned_only: false, other: None },
+    Template { name: "let t=((lit,lit),lit);t.0", src: "pub fn main(x: T) -> (T, T) {\n  let t = (({1:T}, {2:T}), {3:T});\n  t.0\n}\n", params: &["T"], ret: "(T,T)", signed_only: false, unsigned_only: false, other: None },
+    Template { name: "let m=[[lit,lit],[lit,lit]];m[1]", src: "pub fn main(x: T) -> [T; 2] {\n  let m = [[{1:T}, {2:T}], [{3:T}, {5:T}]];\n  let r: [T; 2] = m[1];\n  r\n}\n", params: &["T"], ret: "[T;2]", signed_only: false, unsigned_only: false, other: None },
+    Template { name: "if c {t.0} else {(lit,lit)}", src: "pub fn main(x: T, c: bool) -> (T, T) {\n  let t = (({1:T}, {2:T}), x);\n  if c { t.0 } else { ({3:T}, {5:T}) }\n}\n", params: &["T", "bool"], ret: "(T,T)", signed_only: false, unsigned_only: false, other: None },
+    Template { name: "let arr:[T;3]=range", src: "pub fn main(x: T) -> T {\n  let arr: [T; 3] = {0:T}..{3:T};\n  arr[1] + arr[2] + x\n}\n", params: &["T"], ret: "T", signed_only: false, unsigned_only: true, other: None },
+    Template { name: "return range", src: "pub fn main(x: T) -> [T; 3] {\n  {0:T}..{3:T}\n}\n", params: &["T"], ret: "[T;3]", signed_only: false, unsigned_only: true, other: None },
+    Template { name: "enum field from tuple access", src: "enum E { A([T; 2]), B }\npub fn main(x: T) -> T {\n  let a = ([{1:T}, {2:T}], {3:T});\n  let e = E::A(a.0);\n  match e {\n    E::A(v) => v[1] + x,\n    E::B => x,\n  }\n}\n", params: &["T"], ret: "T", signed_only: false, unsigned_only: false, other: None },
+    Template { name: "struct field from tuple access", src: "struct S { p: (T, T) }\npub fn main(x: T) -> T {\n  let t = (({1:T}, {2:T}), x);\n  let s = S { p: t.0 };\n  s.p.1 + x\n}\n", params: &["T"], ret: "T", signed_only: false, unsigned_only: false, other: None },
+    Template { name: "fn arg from array access", src: "fn f(y: [T; 2]) -> T {\n  y[1]\n}\npub fn main(x: T) -> T {\n  let m = [[{1:T}, {2:T}], [{3:T}, {5:T}]];\n  f(m[0]) + x\n}\n", params: &["T"], ret: "T", signed_only: false, unsigned_only: false, other: None },
     Template { name: "two pub fns", src: "pub fn main(x: T) -> T {\n  x + {1:T}\n}\npub fn other(y: T, z: bool) -> (bool, T) {\n  (z, y & {1:T})\n}\n", params: &["T"], ret: "T", signed_only: false, unsigned_only: false, other: Some(("other", &["T", "bool"], "(bool,T)")) },
 ];
 
@@ -486,7 +495,7 @@ pub fn run(tier: Tier) -> i32 {
             "evaluations": cnt.programs.load(Ordering::Relaxed) + fr.counters.get("programs"),
             "distinct_nontrivial": cnt.accepted.load(Ordering::Relaxed) + fr.counters.get("nontrivial_programs"),
             "supplied_constant_cases(10 constant types x boundary literals of every number type, see C12)": supplied_cases.load(Ordering::Relaxed),
-            "rule": "family I: 50 templates, one per path by which an integer literal meets its type (operand either side, nested, through let / let mut / annotated let / destructuring / arrays / repeat / tuples / struct and enum fields / fn arguments / return / if branches / match patterns and arms / block tail / ranges / indices / shift amounts / casts / assignments / negative and out-of-range values), each literal position suffixed or unsuffixed in EVERY subset, for all 9 integer types; plus zero-sized and single-array-parameter programs; an accepted program must compile every pub fn without panic to a circuit that validates, has one party per parameter (per element for a single array parameter) of size(type) bits and 161 + size(return type) outputs that decode; fully suffixed in-range instances must be accepted; every accepted variant with unsuffixed literals must compute the same outputs as the fully suffixed program of its group on 6 input patterns (reported under C01); (a) every program of families E, S, P, D must be accepted and well-shaped; distinct_nontrivial = accepted family-I programs + family programs with >=2 distinct outputs",
+            "rule": "family I: 59 templates (incl. elements of tuples / arrays of unsuffixed numbers used at a declared type, and ranges used as arrays), one per path by which an integer literal meets its type (operand either side, nested, through let / let mut / annotated let / destructuring / arrays / repeat / tuples / struct and enum fields / fn arguments / return / if branches / match patterns and arms / block tail / ranges / indices / shift amounts / casts / assignments / negative and out-of-range values), each literal position suffixed or unsuffixed in EVERY subset, for all 9 integer types; plus zero-sized and single-array-parameter programs; an accepted program must compile every pub fn without panic to a circuit that validates, has one party per parameter (per element for a single array parameter) of size(type) bits and 161 + size(return type) outputs that decode; fully suffixed in-range instances must be accepted; every accepted variant with unsuffixed literals must compute the same outputs as the fully suffixed program of its group on 6 input patterns (reported under C01); (a) every program of families E, S, P, D must be accepted and well-shaped; distinct_nontrivial = accepted family-I programs + family programs with >=2 distinct outputs",
             "suffix_variant_pairs_compared_with_fully_suffixed_program": diff_pairs,
             "suffix_variant_evaluations": diff_evals,
             "functions_refused_for_having_no_input_bit": cnt.refused_no_input_bits.load(Ordering::Relaxed),
